@@ -12,6 +12,7 @@ def sessions(ctx):
             g = gen.SessionGen(ctx.seed * 67867967 + k, nconn=(1, 3), nmsg=(10, 40), junk=0.02, cmds=0.5, core=True, unresolved=0.08,
                                matcher_depth=k % 3)
             yield g.session(), {'dialect': ctx.rnd.choice(['old', 'new'])}, 'random-list'
+        yield from sessbase.rich_sessions(ctx, 1000039, ctx.pick(40, 400), cmds=0.5)
     return it
 
 
